@@ -1,4 +1,5 @@
 import Cinco.Props.C05
+import Cinco.Generated.ContainerShape
 /-
   C01 (finding F75) — what a typed list / dict field holds after its own validator ran.
 
@@ -74,6 +75,17 @@ theorem validateC_eq_of_lawful (E : Env) (k : Kind) (req : Bool) (name : String)
       split
       · exact hlaw _ hv (by simp)
       · rfl
+
+/-- **/repo's `ListField.validate` and `DictField.validate` are the chain `validateC` follows** (generated reading of
+    cincoconfig/fields/list_field.py and dict_field.py, regenerated on every run): the inherited chain first, then — only when the
+    field has a validator and the result is not `None` — the field's own `_validate` on what came back. -/
+theorem container_validate_code_order :
+    Generated.containerShape.lookup "ListField.validate" =
+      some ["value = super().validate(cfg, value)", "if[self.validator and value is not None]", "value = self._validate(cfg, value)", "end",
+            "return value"] ∧
+    Generated.containerShape.lookup "DictField.validate" =
+      some ["value = super().validate(cfg, value)", "if[self.validator and value is not None]", "value = self._validate(cfg, value)", "end",
+            "return value"] := by decide
 
 /-- an environment whose only catalogue validator hands back a list with an item the item field must reject -/
 def envBad : Env := { C05.env0 with custom := fun _ _ => .ok (.list [.int 1, .str "x".toList]) }
